@@ -12,7 +12,7 @@ import warnings
 
 import numpy as np
 
-from ..kernel import chance, pick, wpick, adigest, sdigest, scribble
+from ..kernel import chance, pick, wpick, adigest, sdigest, scribble, Held
 from ..refs.sphere import sep_deg, tan_deproject
 from .. import present
 
@@ -353,11 +353,18 @@ def execute(script, run, env):
     bystanders = []
     skybufs = {}
     pending = []        # results of the previous operation: the caller edits them in place before the next one
+    held = Held()       # ... after it was verified that the library did not change them in the meantime
     for i, op in enumerate(script["ops"]):
         run.step = i
         if pending:
-            if scribble(pending):
-                run.fault("caller_edited_a_result_in_place")
+            if held.items and judge:
+                held.settle(run, "wcs.result_overwritten", {})
+                if run.failures:
+                    return
+            else:
+                del held.items[:]
+                if scribble(pending):
+                    run.fault("caller_edited_a_result_in_place")
             del pending[:]
         c = op.get("c", 0)
         if prev_c is not None and c != prev_c and ncallers > 1:
@@ -403,6 +410,7 @@ def execute(script, run, env):
                              % (what, H.ncalls - 1, H.last, _short(got), _short(ref)))
                 pending.append(ref)
             pending.append(got)
+            held.hold(got)
             return got
 
         if k == "bystander":
